@@ -354,3 +354,6 @@ def run(ctx, rep):
     rule_insert(ctx, rep)
     rule_drain(ctx, rep)
     rule_first(ctx, rep)
+    # a faulty file must not be replaced in the file table by a different file that merely compares equal
+    from rules.c06 import rule_types
+    rule_types(ctx, rep, rid="R-C03-fileid")
